@@ -232,6 +232,17 @@ func TestVerifC06Server(t *testing.T) {
 				dw := hw.take()
 				rf := fresh.SendRaw(path, v.msg)
 				df := hf.take()
+				if len(rw.Replies) != len(rf.Replies) {
+					// one side answered and the other did not within the short wait: before that counts as a
+					// difference, both are asked once more, patiently (a machine shared with other jobs)
+					ow, of := warm.Wait, fresh.Wait
+					warm.Wait, fresh.Wait = 1500*time.Millisecond, 1500*time.Millisecond
+					rw = warm.SendRaw(path, v.msg)
+					dw = hw.take()
+					rf = fresh.SendRaw(path, v.msg)
+					df = hf.take()
+					warm.Wait, fresh.Wait = ow, of
+				}
 				ev := c06Event{Ev: "Pair", Path: path, Variant: v.name, Round: round, NextHex: hex.EncodeToString(v.msg),
 					Warm:  c06Side{Status: rw.Status, Note: rw.Note, Replies: c06Hex(rw.Replies), Decoded: dw},
 					Fresh: c06Side{Status: rf.Status, Note: rf.Note, Replies: c06Hex(rf.Replies), Decoded: df}}
